@@ -13,7 +13,7 @@ from common import Cvec, Cx, R, Rmat, Rvec, cfl, fl, flmat, max_rel_err
 
 from common import wiring_pre_build as pre_build  # noqa: E402,F401
 
-LEAN_MODULES = ["PyomaVerif.Props.C17", "PyomaVerif.Props.C17Jac", "PyomaVerif.Props.C17Vec", "PyomaVerif.Mutants.C17", "PyomaVerif.Mutants.C17Vec", "PyomaVerif.Props.WiringRun", "PyomaVerif.Props.WiringCalls", "PyomaVerif.Props.C17Table", "PyomaVerif.Mutants.C17Table", "PyomaVerif.Props.C17Cell"]
+LEAN_MODULES = ["PyomaVerif.Props.C17", "PyomaVerif.Props.C17Jac", "PyomaVerif.Props.C17Vec", "PyomaVerif.Mutants.C17", "PyomaVerif.Mutants.C17Vec", "PyomaVerif.Props.WiringRun", "PyomaVerif.Props.WiringCalls", "PyomaVerif.Props.C17Table", "PyomaVerif.Mutants.C17Table", "PyomaVerif.Props.C17Cell", "PyomaVerif.Props.C17Stored"]
 THEOREMS = [
     # the exact sequence of core-routine calls of the run()/mpe() body and the exact set of parameters bound at each (regenerated call table)
     "PV.WiringCalls.C12_ssidat_run_calls",
@@ -84,6 +84,10 @@ THEOREMS = [
     # enter which block (clipped last block), fxMap = the pole map of ac2mp
     "PV.C17.C17_covFx_is_poleVar",
     "PV.C17.C17_table_cells",
+    # the two models of the Fn_cov loop (covTables / ssiPoles.fnCov) return the same tables; the table as stored by run()
+    "PV.C17Stored.covTables_cells",
+    "PV.C17Stored.covTables_eq_ssiPoles_fnCov",
+    "PV.C17Stored.C17_stored",
     "PV.C17.C17_table_index_error",
     "PV.C17.C17_table_variance",
     "PV.C17.C17_factor_column_is_vec",
